@@ -301,6 +301,7 @@ def sub_results(P, R, prop, tier='quick'):
         _FWD_CACHE[k] = (sub, None)          # recursion guard: a cycle sees the (still empty) results
         try:
             mod.run(P, sub, 'quick')
+            sub.raise_deferred()
         except AnalysisError as e:
             err = e
         _FWD_CACHE[k] = (sub, err)
